@@ -93,7 +93,7 @@ def main():
   ap.add_argument('--indices', default='')
   ap.add_argument('--deadline', type=float, default=0.0)
   ap.add_argument('--replay', default='')
-  ap.add_argument('--replay-dir', default=os.path.join(VERIF, 'replays'))
+  ap.add_argument('--replay-dir', default=os.environ.get('VERIF_REPLAY_DIR') or os.path.join(VERIF, 'replays'))
   ap.add_argument('--no-shrink', action='store_true')
   ap.add_argument('--devices', type=int, default=8)
   args = ap.parse_args()
@@ -167,6 +167,9 @@ def main():
           return 2
       rec['violations'].append(v)
     emit(rec)
+    if rec['violations'] and os.environ.get('VSIM_STOP_ON_VIOLATION'):
+      emit({'type': 'done'})
+      return 0
   emit({'type': 'done'})
   return 0
 
